@@ -323,8 +323,30 @@ def agree_ref(ctx, fi, ref_src, title, what=('return', 'heap', 'substores'), rul
         def sel(II, o):
             # ref_attrs_only: the reference lists the attributes the statement talks about; private bookkeeping
             # attributes the code keeps in addition are not a disagreement
-            return [e for e in II.events if e.kind == 'store' and e.data.get('target') == 'attr'
-                    and (o is None or e.owner == o) and (not ref_attrs_only or e.data['name'] in ref_names)]
+            evs = [e for e in II.events if e.kind == 'store' and e.data.get('target') == 'attr'
+                   and (o is None or e.owner == o) and (not ref_attrs_only or e.data['name'] in ref_names)]
+            # several straight-line stores into the same attribute of the same object (`a = v; if c: a = -a`, or one
+            # conditional expression) are ONE update whose value is the attribute's value at exit: last write wins
+            from vstatic.sva import Event
+            groups = {}
+            for e in evs:
+                if not e.loops and not e.tryctx and e.data.get('aug') is None:
+                    groups.setdefault((e.data['base'].key, e.data['name']), []).append(e)
+            out, done = [], set()
+            for e in evs:
+                k = (e.data['base'].key, e.data['name'])
+                g = groups.get(k, [])
+                if len(g) > 1 and e in g and k in II.heap and all({c.key for c in g[0].pc} <= {c.key for c in x.pc} for x in g):
+                    if k in done:
+                        continue
+                    done.add(k)
+                    last = g[-1]
+                    d = dict(last.data)
+                    d['value'] = II.heap[k]
+                    out.append(Event(last.kind, last.node, last.func, last.stack, g[0].pc, last.loops, last.tryctx, d, last.seq))
+                else:
+                    out.append(e)
+            return out
         _match_groups(ctx, rule, title, fi, 'attribute update', sel(I, own), sel(IR, None),
                       lambda e: [('object', e.data['base']), ('attribute', lift(e.data['name'])), ('value', e.data['value']),
                                  ('guard', e.cond())], txt)
@@ -393,9 +415,11 @@ _CALLERS = {}
 
 def callers_of(ctx):
     """short name of a package function -> set of short names of the functions that call it (resolved call sites)"""
-    key = id(ctx.prog)
-    if key in _CALLERS:
-        return _CALLERS[key]
+    # (cached ON the program object: an id()-keyed table would hand the call graph of a freed program to a new one that
+    #  happens to get the same address)
+    cached = ctx.prog.__dict__.get('_callers_of')
+    if cached is not None:
+        return cached
     from vstatic.argbind import resolve_callee
     out = {}
     for fi in ctx.prog.functions.values():
@@ -407,7 +431,7 @@ def callers_of(ctx):
                 if rc is not None:
                     owner = ctx.prog.enclosing_function(fi.module, n) or fi
                     out.setdefault(rc[0].short, set()).add(owner.short)
-    _CALLERS[key] = out
+    ctx.prog.__dict__['_callers_of'] = out
     return out
 
 
